@@ -737,7 +737,7 @@ def _shared(ctx, res) -> None:
     base = "rope.base.pyobjects.AbstractModule"
     idx.need_class(base)
     movers = [nd for nd in rcfg.nodes if nd.kind == "stmt" and nd.ast is not None and any(
-        call_name(c) in ("_rename_module", "MoveResource") for c in calls_in(nd.ast))]
+        call_name(c) in (common.rename_module_step(idx).name, "MoveResource") for c in calls_in(nd.ast))]
     if not movers:
         raise AnalysisError("anchor=Rename.get_changes: the step that moves the renamed module's file not found")
     tests = []  # (isinstance call, the function whose locals it may name)
